@@ -433,6 +433,10 @@ S4_MORE["C11"] = _CTOR_A
 S4_MORE["C12"] = "The constructors the reader rebuilds the objects with are under contract. " + _CTOR_T + " " + _CTOR_A + " " + _CTOR_C
 S4_MORE["C07"] += (" TimeSeries.from_trace: exactly the trace's samples, in order, in the time series' own storage, with the trace's sampling interval (either spelling: obspy keeps "
                   "delta = 1 / sampling_rate).")
+S4_MORE["C07"] += (" _read_peer under contract (10 direction-key configurations x orientation given or not): per file the samples in file order (loop invariant), the header's NPTS "
+                  "and DT, ValueError when a count or a time step disagrees; the arrangement for concrete keys against an independently written statement of the PEER convention "
+                  "(UP / VER vertical, the horizontal closest to north modulo 360 is north and its azimuth the orientation; letter codes ending Z / N / E; anything else refused); "
+                  "all three components cut to the shortest.")
 for _k, _v in S4_MORE.items():
     S4[_k] = ((S4[_k][0] + " " + _v,) + tuple(S4[_k][1:])) if _k in S4 else (_v, None, None)
 for _pid, (_t, _n, _tech) in S4.items():
@@ -448,7 +452,8 @@ S4_ASSUME = {
  "C06": ["update_peaks_bounded of a per-azimuth object = UPB(content, range, filters) (contract: C08)"],
  "C07": ["A-RE: every pattern's match is an opaque string with an identity, rows in file order", "int()/float() of matched text uninterpreted", "A-F32: stores into the float32 buffer are exact in the model",
          "A-OBSPY: obspy.read opaque (STREAM(file))", "files with more rows than the header announces (buffer overrun, IndexError) are evaluated natively only",
-         "SAC: obspy may fail per (file, byte order) - CAN_READ uninterpreted; a readable SAC file yields at least one trace", "read_single: the six readers opaque (ACCEPTS / PARSED of reader, file entry, options, orientation)"],
+         "SAC: obspy may fail per (file, byte order) - CAN_READ uninterpreted; a readable SAC file yields at least one trace", "read_single: the six readers opaque (ACCEPTS / PARSED of reader, file entry, options, orientation)",
+         "PEER: direction keys concrete per configuration (10 configurations); numpy's float(text) on storing a matched string; files with more samples than NPTS are evaluated natively only"],
  "C08": ["mean curves opaque arrays of the grid's length in the mean-curve-peak proofs"],
  "C09": ["scipy detrend / tukey / butter / sosfiltfilt opaque (A-DETREND, A-TUKEY, A-SOSFILTFILT)"],
  "C10": ["scipy detrend / tukey / butter / sosfiltfilt opaque (A-DETREND, A-TUKEY, A-SOSFILTFILT)"],
